@@ -106,7 +106,37 @@ class SArr:
         return out
 
     def view(self, *a, **k):
-        return self
+        """ndarray.view: a class argument (np.ma.MaskedArray ...) changes nothing here; a dtype of another item size
+        reinterprets the bytes along the last axis -- modelled on shapes, with uninterpreted content that is a function of
+        the elements it is made of (so a block's view and the whole array's view of the same bytes agree)"""
+        dt = a[0] if a else k.get("dtype")
+        try:
+            dt = np.dtype(dt) if dt is not None and not isinstance(dt, type) or (isinstance(dt, type) and issubclass(dt, np.generic)) else None
+        except TypeError:
+            dt = None
+        if dt is None or dt.itemsize == self.dtype.itemsize:
+            if dt is not None and dt != self.dtype:
+                return self.astype(dt)
+            return self
+        if self.ndim == 0:
+            raise ValueError("Changing the dtype of a 0d array is only supported if the itemsize is unchanged")
+        old, new = self.dtype.itemsize, dt.itemsize
+        src, last = self, self.shape[-1]
+        if old > new:
+            if old % new:
+                raise ValueError("item sizes do not divide")
+            r = old // new
+            f = z3.Function(f"viewsplit_{old}_{new}", z3.RealSort(), z3.IntSort(), z3.RealSort())
+            shape = self.shape[:-1] + (last * r,)
+            return SArr(shape, lambda idx: f(src._at(tuple(idx[:-1]) + (idx[-1] / r,)), idx[-1] % r), dt, self.log)
+        if new % old:
+            raise ValueError("item sizes do not divide")
+        r = new // old
+        if self.log is not None:
+            self.log.add("view: last axis is a multiple of the item-size ratio", core._wrapb(_z(last) % r == 0))
+        g = z3.Function(f"viewjoin_{old}_{new}", *([z3.RealSort()] * r + [z3.RealSort()]))
+        shape = self.shape[:-1] + (last // r if isinstance(last, int) else core._wrapi(_z(last) / r),)
+        return SArr(shape, lambda idx: g(*[src._at(tuple(idx[:-1]) + (idx[-1] * r + j,)) for j in range(r)]), dt, self.log)
 
     def sum(self, axis=None, dtype=None, out=None, keepdims=False, **k):
         return self.reduce_axis(axis, "add", keepdims)
@@ -862,6 +892,7 @@ _NP_FUNCS = dict(
     take=lambda a, indices, axis=None, **k: _take(a, indices, axis),
     diagonal=lambda a, offset=0, axis1=0, axis2=1: _diagonal(a, offset, axis1, axis2),
     diag=lambda v, k=0: _diag(v, k),
+    asfortranarray=lambda a, dtype=None, like=None: a,
     can_cast=lambda from_, to, casting="safe": np.can_cast(from_.dtype if isinstance(from_, SArr) and from_.dtype is not None else np.float64, to, casting=casting),
     empty_like=lambda a, dtype=None, order="K", subok=True, shape=None: _empty_like(a, shape),
     sliding_window_view=lambda x, window_shape, axis=None, **k: _sliding_window_view(x, window_shape, axis),
